@@ -57,7 +57,7 @@ OwnProp(e) == CASE e.op = "GenerateHOTP" -> "C01" [] e.op = "GenerateTOTP" -> "C
                 [] e.op \in {"To8BE", "ParseDec8", "ParseDec64", "LeftPadHex", "MustHexPadLeft", "ParseHexTimestamp",
                              "ParseDecimalChallenge", "HexInputToOCRA", "OCRAQuestion"} -> "C17"
                 [] e.op = "RandomSecret" -> "C08"
-                [] OTHER -> "C10"
+                [] OTHER -> "NONE"        \* operations no listed property owns functionally (only "returns normally", C10)
 
 IsValidate(e) == e.op \in {"ValidateHOTP", "ValidateTOTP", "ValidateOCRA"}
 
